@@ -38,6 +38,7 @@ TRUSTED = [
     "of the same cases is re-evaluated by the kernel (vm_compute)",
 ]
 INF_E = 100000
+NAN_E = 100001
 TOL_BITS = 36           # mute tolerance 2^-36 ~ 1.5e-11 (rounding noise of <= 11 float64 additions ~ 1e-15)
 
 
@@ -49,7 +50,7 @@ def fme(x):
     if math.isinf(x):
         return (1 if x > 0 else -1, INF_E)
     if x != x:
-        raise ValueError("NaN is outside the domain")
+        return (0, NAN_E)
     if x == 0.0:
         return (0, 0)
     m, e = math.frexp(x)
@@ -60,7 +61,7 @@ def fme(x):
 
 
 def hexlist(a):
-    return [float(v).hex() for v in np.asarray(a, dtype=np.float64).ravel()]
+    return [float(v).hex() for v in np.asarray(a, dtype=np.float64).ravel()]     # 'nan' for NaN
 
 
 # --------------------------------------------------------------------------
@@ -92,7 +93,7 @@ class Case:
             return np.float32(v[0])
         if k == "f32array":
             return np.array(v, dtype=np.float32)
-        if k in ("f64array", "badlen", "oddbroadcast"):
+        if k in ("f64array", "badlen", "oddbroadcast", "nometa"):
             return np.array(v, dtype=np.float64)
         if k == "pylist":
             return list(v)
@@ -157,6 +158,23 @@ class _Timeout(Exception):
     pass
 
 
+DEFAULTS = {"v_per_sec": 1e-8, "fs": 30000, "proportion": 0.2, "mute_window_samples": 7}
+
+
+def call_saturation(saturation, c, data, mv, k=0):
+    """Three call styles, chosen deterministically per case: every argument by keyword (as
+    decompress_destripe_cbin does), all positional, or positional data/max_voltage + keywords.  A parameter
+    whose value equals the documented default is NOT passed, so the defaults themselves are exercised."""
+    vals = {"v_per_sec": c.vps, "fs": c.fs, "proportion": c.prop, "mute_window_samples": c.M}
+    style = (c.layout + c.M + c.data.shape[0] + k) % 3
+    if style == 1:
+        return saturation(data, mv, c.vps, c.fs, c.prop, c.M)
+    kw = {n: v for n, v in vals.items() if not (type(v) is type(DEFAULTS[n]) and v == DEFAULTS[n])}
+    if style == 0:
+        return saturation(data=data, max_voltage=mv, **kw)
+    return saturation(data, mv, **kw)
+
+
 def _alarm(signum, frame):
     raise _Timeout("implementation call exceeded its time limit (%d s)" % IMPL_TIMEOUT_S[0])
 
@@ -212,12 +230,11 @@ def impl_observe(c):
                 for k in range(c.calls):
                     # C-contiguous copy, or the transposed view of an [ns, nc] array (what destripe passes)
                     data = c.data.copy() if (c.layout + k) % 2 == 0 else np.ascontiguousarray(c.data.T).T
-                    ret = saturation(data, mv, v_per_sec=c.vps, fs=c.fs, proportion=c.prop,
-                                     mute_window_samples=c.M)
-                    if not (data.shape == c.data.shape and np.array_equal(data, c.data)):
+                    ret = call_saturation(saturation, c, data, mv, k)
+                    if not (data.shape == c.data.shape and np.array_equal(data, c.data, equal_nan=True)):
                         side.append(("caller_data_modified", "saturation modified the caller's data array"))
                 if keep is not None and not (isinstance(mv, np.ndarray) and keep.shape == mv.shape
-                                             and np.array_equal(keep, mv)):
+                                             and np.array_equal(keep, mv, equal_nan=True)):
                     side.append(("caller_range_modified", "saturation modified the caller's max_voltage array "
                                  "(%r -> %r)" % (keep.ravel()[:3].tolist(), np.asarray(mv).ravel()[:3].tolist())))
                 val = validate_return(c, ret, data, mv)
@@ -712,6 +729,59 @@ class ReaderCase(Case):
         return t
 
 
+class NoMetaCase(Case):
+    """Reader on a flat binary WITHOUT a .meta file (nc, fs guessed from the file size): range_volts is
+    sample2volts * nan, an unknown full scale; the amplitude clause can then never fire, the slew clause
+    is unaffected."""
+
+    def __init__(self, nc_file, data, vps, prop, M):
+        Case.__init__(self, data, "nometa", [float("nan")] * data.shape[0], vps, 30000, prop, M, "reader_nometa")
+        self.nc_file = nc_file
+
+    def mv_arg(self):
+        import logging
+        import spikeglx
+        logging.getLogger("ibllib").setLevel(logging.ERROR)
+        d = common.tmpdir("C16_nometa_")
+        try:
+            f = d / "raw_g0_t0.imec0.ap.bin"
+            np.zeros((6, self.nc_file), dtype=np.int16).tofile(f)
+            sr = spikeglx.Reader(f)
+            try:
+                self.fs = sr.fs
+                rv = np.array(sr.range_volts, copy=True)[:sr.nc - sr.nsync]
+            finally:
+                sr.close()
+        finally:
+            shutil.rmtree(d, ignore_errors=True)
+        if rv.shape != (self.data.shape[0],) or rv.dtype.kind != "f" or not bool(np.all(np.isnan(rv))):
+            self.reader_side = [("range_volts", "Reader without metadata: range_volts[:nc-nsync] is %r %s, expected %d NaN"
+                                 % (rv.shape, rv.dtype, self.data.shape[0]))]
+        self.rv_dtype = rv.dtype.type if rv.dtype.kind == "f" else np.float64
+        return rv
+
+    def mv_dtype(self):
+        return getattr(self, "rv_dtype", np.float64)
+
+    def describe(self):
+        d = Case.describe(self)
+        d["nometa_nc_file"] = self.nc_file
+        return d
+
+
+def gen_nometa(rng, nc_file, M):
+    ncv = 384
+    ns = rng.randrange(5, 10)
+    dt = rng.choice([np.float32, np.float64])
+    p = rng.choice([0.2, 0.1, 0.25])
+    data = np.zeros((ncv, ns))
+    nprng = np.random.default_rng(rng.randrange(1 << 32))
+    for j in range(ns):
+        sel = nprng.random(ncv) < rng.choice([0.0, p * 0.5, p * 1.5, 1.0])
+        data[sel, j] = rng.choice([1e-3, -2e-3, 5.0, 1e-5])
+    return NoMetaCase(nc_file, data.astype(dt), 1e-8, p, M)
+
+
 def canon_float(x, prec, emin):
     """(mantissa, exponent) as Flocq stores a finite float of the format"""
     x = float(x)
@@ -1019,6 +1089,23 @@ def gen_cases(ctx):
     for rep in range(3 * n):
         for kind in kinds + ["np1_3b_ap", "np1_3a_ap"]:
             cases.append(gen_reader(rng, kind, rng.choice([7, 7, 3, 5, 9])))
+    # a reader without metadata (unknown full scale = NaN); NaN samples; tapers longer than usual / than the array
+    cases.append(gen_nometa(rng, 385, 7))
+    cases.append(gen_nometa(rng, 384, rng.choice([3, 5])))
+    for rep in range(10 * n):
+        c = gen_tiny(rng, rng.choice([7, 3, 5]))
+        if c.data.size:
+            idx = [rng.randrange(c.data.size) for _ in range(1 + c.data.size // 6)]
+            c.data.ravel()[idx] = np.nan
+        if rep % 3 == 0 and c.mv_kind in ("f32array", "f64array", "pylist"):
+            c.mv_vals[rng.randrange(len(c.mv_vals))] = float("nan")
+        c.origin = "nan_values"
+        cases.append(c)
+    for M in [13, 25, 31, 64, 101][: (5 if ctx.thorough() else 3)] + ([rng.choice([13, 25, 31, 64, 101])] * 2):
+        g = rng.choice([gen_voltage_lattice, gen_random])
+        c = g(rng, rng.choice([1, 3, 10]), rng.choice([5, 30, 2 * M + 3]), M)
+        c.origin = "wide_taper"
+        cases.append(c)
     return cases
 
 
@@ -1154,6 +1241,8 @@ def replay(ctx, data):
         print("property clauses failing on the implementation:", bad)
         return 1 if bad else 0
     c = Case.from_description(inp)
+    if "nometa_nc_file" in inp:
+        c = NoMetaCase(inp["nometa_nc_file"], c.data, c.vps, c.prop, c.M)
     if "meta_text" in inp:
         c = ReaderCase(inp["reader_kind"], inp["meta_text"], [Fraction(f) for f in inp["true_full_scale"]],
                        c.data, c.vps, c.prop, c.M, c.origin)
